@@ -214,6 +214,15 @@ fn realsrv_child(tier: &str, fairness: bool) -> i32 {
         let st = explore(&pname, h.to_json(), &h, &cfg);
         eprintln!("[real-server child] phase {pname}: {} executions, {} violation classes, {:.1}s", st.evals, st.violations.len(), st.wall);
         phases.push(st);
+        if !fairness {
+            // calls and replies larger than the kernel's socket buffers: the server's write of a reply
+            // is taken in pieces while the client reads
+            let h = RealSrv { smol, max_clients: 1, bursts: vec![vec![K::G], vec![K::P, K::G, K::P]], endings: vec![Ending::Stays], fairness: false };
+            let pname = format!("{name}/real-listener+transport/300KB-calls-and-replies");
+            let st = explore(&pname, h.to_json(), &h, &cfg);
+            eprintln!("[real-server child] phase {pname}: {} executions, {} violation classes, {:.1}s", st.evals, st.violations.len(), st.wall);
+            phases.push(st);
+        }
     }
     println!("{}", xplore::report::child_json(&phases, "C19"));
     0
